@@ -18,13 +18,13 @@ import (
 	_ "github.com/bufbuild/verifharness/internal/breakmodel"
 	_ "github.com/bufbuild/verifharness/internal/cachemodel"
 	_ "github.com/bufbuild/verifharness/internal/climodel"
-	_ "github.com/bufbuild/verifharness/internal/configmodel"
 	_ "github.com/bufbuild/verifharness/internal/commitmodel"
+	_ "github.com/bufbuild/verifharness/internal/configmodel"
 	_ "github.com/bufbuild/verifharness/internal/depsmodel"
 	_ "github.com/bufbuild/verifharness/internal/digestmodel"
 	_ "github.com/bufbuild/verifharness/internal/faults"
-	_ "github.com/bufbuild/verifharness/internal/formatmodel"
 	_ "github.com/bufbuild/verifharness/internal/filtermodel"
+	_ "github.com/bufbuild/verifharness/internal/formatmodel"
 	_ "github.com/bufbuild/verifharness/internal/imageiomodel"
 	_ "github.com/bufbuild/verifharness/internal/imagemodel"
 	_ "github.com/bufbuild/verifharness/internal/lintmodel"
